@@ -16,6 +16,7 @@ import Anko.Props.Tie.StmtFlow
 import Anko.Props.Tie.SingleStmtFlow
 import Anko.Props.Tie.ProvFlow
 import Anko.Props.Tie.ToXFlow
+import Anko.Props.Tie.Inventory
 
 set_option linter.unusedSectionVars false
 set_option linter.unusedSimpArgs false
@@ -466,5 +467,16 @@ theorem source_tie_SingleStmtFlow : Gen.SingleStmtFlow.leaves = Tables.singleStm
 theorem source_tie_ProvFlow : Gen.ProvFlow.leaves = Tables.provFlow := Tie.provFlow
 /-- the conversions of the numeric tower (vmToX.go) and kind helpers -/
 theorem source_tie_ToXFlow : Gen.ToXFlow.leaves = Tables.toXFlow := Tie.toXFlow
+
+
+/-! ### Declaration inventory
+
+Nothing was added to the packages this property is anchored in: their top-level declarations (functions, methods, variables, constants, types with
+the fields of struct types), regenerated from /repo on this run, are the audited ones (Props/Tie/Inventory). A helper, a package-level table or a
+file added there - code no flow table can pin - breaks the tie by name and makes this property's check search for a failing input. -/
+/-- vm/ -/
+theorem declarations_of_Vm_are_the_audited_ones : Tie.ofPkg "vm" Gen.Inventory.decls = Tie.ofPkg "vm" Tables.inventory := Tie.inventoryVm
+/-- ast/ -/
+theorem declarations_of_Ast_are_the_audited_ones : Tie.ofPkg "ast" Gen.Inventory.decls = Tie.ofPkg "ast" Tables.inventory := Tie.inventoryAst
 
 end Anko.C08
